@@ -141,6 +141,31 @@ func init() {
 			}
 		}
 	}
+	// byte-level disguises of every real abbreviation: leading / trailing NUL bytes, junk followed by
+	// NUL padding up to 4 and 8 bytes (a key packed into a 32- or 64-bit integer loses what is shifted
+	// out), the high bit set on the first byte, the abbreviation doubled
+	seenReal := map[string]bool{}
+	for _, v := range spec.Versions {
+		for _, m := range v.Metrics {
+			if seenReal[m.Abv] {
+				continue
+			}
+			seenReal[m.Abv] = true
+			a := m.Abv
+			pad := func(n int) string {
+				if n < len(a) {
+					return a
+				}
+				return "Q" + strings.Repeat("\x00", n-len(a)) + a
+			}
+			for _, x := range []string{"\x00" + a, "\x00\x00" + a, a + "\x00", pad(4), pad(8), string([]byte{a[0] | 0x80}) + a[1:], a + a, a + "/", "/" + a, a + ":"} {
+				if !seenA[x] {
+					seenA[x] = true
+					allAbvs = append(allAbvs, x)
+				}
+			}
+		}
+	}
 	allAbvs = append(allAbvs, "", "ZZ", "A V", "AV ", " AV", "M", "MA:", "AVX", "CVSS", "é")
 	allVals = append(allVals, "", " ", "NN", "N ", " N", "ND ", "Q", "0", "Né", "N/", "CLEAR", "clear", "Cle", "Reds")
 	// long names of the values in the specification texts and calculators: the most
